@@ -8,7 +8,7 @@ import warnings
 from .. import modeltree as mt
 from .. import oracles
 from .. import pipes
-from ..propkit import with_oracle, _sig
+from ..propkit import OracleOnly, with_oracle, _sig
 from ..suites_ops import K4Sem
 
 PROPERTY = "C03"
@@ -390,4 +390,12 @@ class K4C03(K4Sem):
             yield {"tables": case["tables"], "pipe": case["pipe"]}
 
 
-SUITES = [_make(), K4C03()]
+class _Witnesses(OracleOnly):
+    """hand-written witnesses outside the value domain of the executable model (true NaN cells produced by 0.0 / 0.0 inside
+    a pipeline: the model's cells are exact rationals), judged by the oracle alone: Polars vs Pandas"""
+    def gen(self, rng, tier):
+        return iter(())
+
+
+SUITES = [_make(), K4C03(),
+          with_oracle(_Witnesses, oracles.oracle_C03, name="c03_witnesses", corpus_dir="C03/witnesses")]
